@@ -112,7 +112,8 @@ def stream_lines(name, tier, seed):
 OP_RE = re.compile(r"(?:^|;)\s*([a-z]+)")
 
 
-def summarize(name, lines, meta, res, t_run):
+def summarize(name, lines, meta, res, t_run, cut_ids=None):
+    cut_ids = cut_ids or {}
     ops = collections.Counter()
     for l in lines:
         body = l.split("|", 2)[2]
@@ -147,8 +148,11 @@ def summarize(name, lines, meta, res, t_run):
         ngroup += int(last_extra.get("groups", 0) or 0)
         if r["halt"]:
             kinds["model_" + r["halt"]] += 1
+        # hyp = 1: the model says the hypotheses of the safety theorems (step_ok) hold at every step of this
+        # history; then the theorems predict: no fault, invariant, so no C01/C02/C05/C06/C08 oracle may fire
         cls = {"disc": last_extra.get("disc", "1"), "d4": last_extra.get("d4", "0"),
-               "loop": last_extra.get("loop", "0"), "esc": last_extra.get("esc", "0")}
+               "loop": last_extra.get("loop", "0"), "esc": last_extra.get("esc", "0"),
+               "hyp": "0" if hid in cut_ids else "1"}
         if r["diff"]:
             d = r["diff"]
             problems.append({"type": "diff", "hid": hid, "line": r["line"], "idx": d["idx"],
@@ -157,7 +161,8 @@ def summarize(name, lines, meta, res, t_run):
         for (i, o, ex) in r["oracles"]:
             problems.append({"type": "oracle", "hid": hid, "line": r["line"], "idx": i, "oracle": o,
                              "disc": ex.get("disc", "1"), "d4": ex.get("d4", "0"),
-                             "loop": ex.get("loop", "0"), "esc": ex.get("esc", "0")})
+                             "loop": ex.get("loop", "0"), "esc": ex.get("esc", "0"),
+                             "hyp": "0" if hid in cut_ids else "1"})
         if r["halt"] == "fault":
             problems.append({"type": "fault", "hid": hid, "line": r["line"], "idx": -1, **cls})
     # keep the summary small: at most 60 problems per (type, key)
@@ -204,8 +209,10 @@ def get_stream(name, tier, seed, use_cache=True):
             lines, meta = got, {}
         lines = [l for l in lines if l.strip()]
         res = P.differential(lines) if lines else {}
-        s = summarize(name, lines, meta, res, time.time() - t0)
-        s["inv"] = P.run_inv([r["line"] for r in res.values()])
+        inv = P.run_inv([r["line"] for r in res.values()])
+        s = summarize(name, lines, meta, res, time.time() - t0, inv.get("cut_ids"))
+        inv.pop("cut_ids", None)
+        s["inv"] = inv
         tmp = path + ".tmp%d" % os.getpid()
         json.dump(s, open(tmp, "w"))
         os.replace(tmp, path)
